@@ -5,11 +5,12 @@ namespace verif {
 std::vector<RouteRec> route_log;
 bool route_on = false;
 int chunks = 1;
+int env = 0;
 }
 // The headers are compiled with -D_OPENMP but without -fopenmp: the chunk count of make_segmentation_par is whatever the
 // harness answers here, and the chunks run sequentially in this thread.
-extern "C" int omp_get_num_procs(void) noexcept { return verif::chunks; }
-extern "C" int omp_get_max_threads(void) noexcept { return verif::chunks; }
+extern "C" int omp_get_num_procs(void) noexcept { return verif::env == 2 ? verif::chunks + 5 : verif::chunks; }
+extern "C" int omp_get_max_threads(void) noexcept { return verif::env == 1 ? verif::chunks + 3 : verif::chunks; }
 
 namespace se {
 std::vector<CfgEntry> &registry() { static std::vector<CfgEntry> r; return r; }
